@@ -186,6 +186,9 @@ class Interp:
         cur = fr.fn.crate if fr is not None else self.prog.crate
         if "::promoted[" in name:
             f = self.prog.funcs[cur].get(name)
+            if f is None and fr is not None:
+                # a promoted is only referenced from its own function: look it up by the enclosing function's printed name
+                f = self.prog.funcs[cur].get(fr.fn.name + name[name.rindex("::promoted["):])
             if f is None:
                 # promoted of an impl method are printed with the impl path
                 for c, fs in self.prog.funcs.items():
